@@ -3246,7 +3246,7 @@ void QXmppCallInviteElement::setExternal(std::optional<QVector<External>> extern
 /// \cond
 void QXmppCallInviteElement::parse(const QDomElement &element)
 {
-    std::optional<Type> type { stringToCallInviteElementType(element.nodeName()) };
+    std::optional<Type> type { stringToCallInviteElementType(element.tagName()) };
 
     if (!type) {
         return;
